@@ -204,12 +204,12 @@ def reason_id(sv):
     return re.sub(r'\W', '_', sv)
 
 
-def invalid_rule(state_expr_re, enum_ns, cfunc, required=True):
+def invalid_rule(state_expr_re, enum_ns, cfunc, required=True, state_arg="state"):
     """`state.Invalid(Ns::RESULT, "reason"[, debug...])` -> `cfunc(state, RESULT, 0x<fnv32 of reason>u /* "reason" */)`;
     the debug-message argument (strprintf etc.) is dropped."""
     pat = state_expr_re + r'Invalid\(\s*' + enum_ns + r'::(\w+)\s*,\s*"([^"]*)"\s*(?:,[^;]*?)?\)(?=\s*;)'
     return R("call:state.Invalid->" + cfunc, pat,
-             lambda m: f'{cfunc}(state, {m.group(1)}, {reason_hash(m.group(2)):#010x}u /* "{m.group(2)}" */)', required)
+             lambda m: f'{cfunc}({state_arg}, {m.group(1)}, {reason_hash(m.group(2)):#010x}u /* "{m.group(2)}" */)', required)
 
 
 GENERIC_RULES = [
